@@ -14,12 +14,30 @@ void dsa_register(const char *kind, dsa_run_fn fn)
   if (nkinds < 32) { kinds[nkinds].kind = kind; kinds[nkinds].fn = fn; nkinds++; }
 }
 
+long dsa_alloc_fail_at  = -1;
+int  dsa_alloc_fail_all = 0;
+long dsa_alloc_requests = 0;
+
+static int alloc_refused(void)
+{
+  dsa_alloc_requests++;
+  if (dsa_alloc_fail_all) return 1;
+  if (dsa_alloc_fail_at == 0) { dsa_alloc_fail_at = -1; return 1; }
+  if (dsa_alloc_fail_at > 0) dsa_alloc_fail_at--;
+  return 0;
+}
+static void *drv_malloc(size_t n) { return alloc_refused() ? NULL : malloc(n); }
+static void *drv_realloc(void *p, size_t n) { return alloc_refused() ? NULL : realloc(p, n); }
+static void  drv_free(void *p) { free(p); }
+
 static void run_case(long k, char *line)
 {
   char *bar = strchr(line, '|');
   int   i;
   if (!bar) { printf("%ld R BADCASE\n", k); return; }
   *bar = 0;
+  dsa_alloc_fail_at = -1;
+  dsa_alloc_fail_all = 0;
   for (i = 0; i < nkinds; i++) {
     if (strcmp(line, kinds[i].kind) == 0) { kinds[i].fn(k, bar + 1); return; }
   }
@@ -29,7 +47,7 @@ static void run_case(long k, char *line)
 int main(int argc, char **argv)
 {
   int rc;
-  ares_library_init(ARES_LIB_INIT_ALL);
+  ares_library_init_mem(ARES_LIB_INIT_ALL, drv_malloc, drv_free, drv_realloc);
   rc = drv_main(argc, argv, run_case);
   ares_library_cleanup();
   return rc;
